@@ -242,7 +242,8 @@ tape_harness("modstub_thorough", [("t", 18)], {}, lambda t: modstub_body(t, MOD_
 
 # ---------------------------------------------------------------- generated modules (real functions made from the tape)
 GEN_MODULE = "vfix_gen"
-GEN_KINDS = ("module", "instance", "class", "static", "property", "async-method", "generator", "nested-instance", "nested-static", "async-module")
+GEN_KINDS = ("module", "instance", "class", "static", "property", "async-method", "generator", "nested-instance", "nested-static", "async-module",
+             "async-generator")  # async def with a yield: NOT a coroutine function, its stub is a plain def
 OTHER = ("none", "module function", "method of a class nested two levels deep", "instance method of the same class")
 
 
@@ -256,7 +257,7 @@ def _def_source(name, kind, sig, indent):
             pass
     deco = {"class": "@classmethod\n", "static": "@staticmethod\n", "nested-static": "@staticmethod\n", "property": "@property\n"}.get(kind, "")
     head = ("async def" if kind.startswith("async") else "def") + f" {name}({params}):"
-    body = "yield 0" if kind == "generator" else "return 0"
+    body = "yield 0" if kind in ("generator", "async-generator") else "return 0"
     pad = " " * indent
     return "".join(pad + ln + "\n" for ln in (deco + head).split("\n")) + pad + "    " + body + "\n"
 
@@ -274,7 +275,7 @@ def build_gen_module(t, others=None):
     sig = sig.replace(return_annotation=inspect.Signature.empty)
     src = ""
     main_q = None
-    if kind in ("module", "generator", "async-module"):
+    if kind in ("module", "generator", "async-module", "async-generator"):
         src += _def_source("target", kind, sig, 0)
         main_q = "target"
     if other == "module function":
